@@ -77,7 +77,7 @@ Proof. exact (check_upto_sound 6 check_upto_6). Qed.
 Print Assumptions C02_spec_bounded.
 
 (* Validation reports a parenthesis mismatch exactly for unbalanced text
-   (holds since the fix: commit; the count-only check is refuted below). *)
+   (holds since fix commit 5df7886; the count-only check is refuted below). *)
 Theorem C02_unbalanced_iff_mismatch : forall s : str,
   balanced s = false <-> paren_mismatch s = true.
 Proof. exact unbalanced_iff_mismatch. Qed.
@@ -90,7 +90,7 @@ Proof. exact count_mismatch_unbalanced. Qed.
 Print Assumptions C02_count_mismatch_sound.
 
 (* "unbalanced => mismatch" is FALSE of the count-only check the code used
-   before the fix: commit; kept as the record of the repaired defect. *)
+   before fix commit 5df7886; kept as the record of the repaired defect. *)
 Theorem C02_unbalanced_reports_mismatch_refuted :
   exists s, balanced s = false /\ paren_count_mismatch s = false.
 Proof. exact unbalanced_reports_mismatch_refuted. Qed.
